@@ -350,10 +350,55 @@ def family_fracint():
                 yield ('fracint %s %s %g not' % (en, op, c), Model(V3, lcons=[('not', a)], obj=('min', None, {0: 1.0, 1: 1.0})))
 
 
+def family_cones():
+    """quadratic rows of (rotated) second-order-cone shape and their near misses (wrong direction, free or
+    non-positive "radius" variable, constant radius, extra constant), for APIs that accept cones"""
+    # NL order: continuous y, z first, then the integers x, w
+    VC = [(-1.5, 1.5, False, 0.5), (0.0, 3.0, False, 0.5), (-2.0, 2.0, True, 1.0), (0.0, 2.0, True, 1.0)]
+    VF = [(-1.5, 1.5, False, 0.5), (-1.0, 3.0, False, 0.5), (-2.0, 2.0, True, 1.0), (0.0, 2.0, True, 1.0)]
+    VN = [(-1.5, 1.5, False, 0.5), (-3.0, 0.0, False, 0.5), (-2.0, 2.0, True, 1.0), (0.0, 2.0, True, 1.0)]
+    y, z, x, w = ('v', 0), ('v', 1), ('v', 2), ('v', 3)
+    sq = lambda e: ('pow2', e)
+    def S(*ts):
+        e = ts[0]
+        for t in ts[1:]: e = ('add', e, t)
+        return e
+    c = lambda k, e: ('mul', N(k), e)
+    rows = [
+        ('x2+y2<=z2', S(sq(x), sq(y), c(-1, sq(z))), -INF, 0.0),
+        ('4x2+y2<=9z2', S(c(4, sq(x)), sq(y), c(-9, sq(z))), -INF, 0.0),
+        ('x2+y2<=4', S(sq(x), sq(y)), -INF, 4.0),
+        ('x2+y2+1<=z2', S(sq(x), sq(y), c(-1, sq(z))), -INF, -1.0),
+        ('z2-x2-y2>=0', S(sq(z), c(-1, sq(x)), c(-1, sq(y))), 0.0, INF),
+        ('x2+y2>=z2 (reverse)', S(sq(x), sq(y), c(-1, sq(z))), 0.0, INF),
+        ('x2<=2zw', S(sq(x), c(-2, ('mul', z, w))), -INF, 0.0),
+        ('x2+y2<=zw', S(sq(x), sq(y), c(-1, ('mul', z, w))), -INF, 0.0),
+        ('x2+y2+1<=4zw', S(sq(x), sq(y), c(-4, ('mul', z, w))), -INF, -1.0),
+        ('x2<=3z', S(sq(x), c(-3, z)), -INF, 0.0),
+        ('zw>=x2 (ge)', S(('mul', z, w), c(-1, sq(x))), 0.0, INF),
+        ('abs(x)<=z', S(('abs', x), c(-1, z)), -INF, 0.0),
+        ('2z>=abs(x)', S(c(2, z), c(-1, ('abs', x))), 0.0, INF),
+        ('x2-y2<=0', S(sq(x), c(-1, sq(y))), -INF, 0.0),
+        ('x2+y2-z2 in [-1,0]', S(sq(x), sq(y), c(-1, sq(z))), -1.0, 0.0),
+    ]
+    for vn, V in (('z>=0', VC), ('z free', VF), ('z<=0', VN)):
+        for rn, e, lb, ub in rows:
+            if vn != 'z>=0' and ('w' in rn or 'abs' in rn or rn == 'x2+y2<=4'): continue
+            yield ('cone %s %s' % (rn, vn), Model(V, acons=[(e, {}, lb, ub)]))
+            yield ('cone %s %s +obj+lin' % (rn, vn), Model(V, acons=[(e, {}, lb, ub), (None, {0: 1.0, 2: 1.0, 3: 1.0}, 1.0, INF)],
+                                                         obj=('min', None, {1: 1.0, 2: -0.5})))
+    # two cones sharing the radius variable, and a cone next to a logical constraint
+    yield ('cone pair shared z', Model(VC, acons=[(S(sq(x), c(-1, sq(z))), {}, -INF, 0.0), (S(sq(y), sq(w), c(-1, sq(z))), {}, -INF, 0.0)],
+                                       obj=('min', None, {1: 1.0})))
+    yield ('cone + or', Model(VC, acons=[(S(sq(x), sq(y), c(-1, sq(z))), {}, -INF, 0.0)],
+                              lcons=[('or', ('ge', x, N(1)), ('ge', w, N(1)))], obj=('min', None, {1: 1.0})))
+
+
 FAMILIES = {
     'shapes': family_shapes, 'sharing': family_sharing, 'canon': family_canon, 'uenc': family_uenc,
     'bounds': family_bounds, 'linmix': family_linear_mix, 'alldiffcont': family_alldiff_cont,
     'compl': family_compl, 'sos': family_sos, 'dvars': family_dvars, 'fracint': family_fracint,
+    'cones': family_cones,
 }
 
 
